@@ -258,7 +258,7 @@ def replay(case, rec):
 
 def run(rec, rng, tier, shard, nshards):
     R.check_atoms()
-    n = 700 if tier == 'quick' else 12000
+    n = 1500 if tier == 'quick' else 20000
     for i in range(n):
         case = gen_case(rng)
         try:
